@@ -161,9 +161,11 @@ Proof.
   - destruct (exec_send_spec _ _ _ _ _ _ _ E) as (_ & _ & _ & M & _).
     destruct M as (_ & MS & _). rewrite MS in Hne. unfold zero1 in Hne. lia.
   - inversion E; subst. unfold supply in Hne. simpl in Hne. congruence.
+  - destruct (exec_update_params_spec _ _ _ _ _ E) as (_ & _ & _ & _ & HS & _).
+    unfold supply in Hne. rewrite HS in Hne. congruence.
 Qed.
 
-(** the registry only grows and the parameters never change *)
+(** the registry only grows; the parameters change only by a valid MsgUpdateParams of the authority *)
 Lemma step_registry_grows s m p : In p (pools s) -> In p (pools (step s m)).
 Proof.
   unfold step. destruct (exec s m) as [[s' r]|o] eqn:E; [|auto].
@@ -182,23 +184,28 @@ Proof.
     destruct R as [R _]. rewrite R. exact Hin.
   - destruct (exec_send_spec _ _ _ _ _ _ _ E) as (_ & _ & _ & _ & R). destruct R as [R _]. rewrite R. exact Hin.
   - inversion E; subst. exact Hin.
+  - destruct (exec_update_params_spec _ _ _ _ _ E) as (_ & _ & _ & _ & _ & R & _). destruct R as [R _]. rewrite R. exact Hin.
 Qed.
 
-Lemma step_par s m : par (step s m) = par s.
+Lemma step_par s m :
+  par (step s m) = par s
+  \/ (exists p, m = MUpdateParams acct_gov p /\ params_valid p = true /\ par (step s m) = p).
 Proof.
-  unfold step. destruct (exec s m) as [[s' r]|o] eqn:E; [|reflexivity].
+  unfold step. destruct (exec s m) as [[s' r]|o] eqn:E; [|left; reflexivity].
   destruct m; simpl in E.
-  - destruct (exec_swap_spec _ _ _ _ _ _ _ _ _ _ _ E) as (_ & _ & _ & _ & _ & _ & sold & bought & SE & _).
+  - left. destruct (exec_swap_spec _ _ _ _ _ _ _ _ _ _ _ E) as (_ & _ & _ & _ & _ & _ & sold & bought & SE & _).
     destruct SE as [n _ _ _ M _ | n1 n2 s1 mid _ _ _ _ _ _ M1 _ M2 _].
     + apply M.
     + destruct M1 as (_ & _ & (_ & P1) & _). destruct M2 as (_ & _ & (_ & P2) & _). congruence.
-  - destruct (exec_add_spec _ _ _ _ _ _ _ _ _ E) as (_ & _ & _ & _ & _ & mint & _ & _ & AE).
+  - left. destruct (exec_add_spec _ _ _ _ _ _ _ _ _ E) as (_ & _ & _ & _ & _ & mint & _ & _ & AE).
     destruct AE as [tax Hp _ _ _ _ M Hps _ | n Hp _ _ _ M R | n dep Hp _ _ _ _ _ _ _ _ M R]; apply M.
-  - destruct (exec_remove_spec _ _ _ _ _ _ _ _ _ E) as (cp & a1 & a2 & _ & _ & _ & _ & _ & _ & _ & _ & _ & _ & M & _). apply M.
-  - destruct (exec_add_uni_spec _ _ _ _ _ _ _ _ _ E) as (n & mint & _ & _ & _ & _ & _ & _ & _ & _ & _ & M & _). apply M.
-  - destruct (exec_remove_uni_spec _ _ _ _ _ _ _ _ _ E) as (n & target & _ & _ & _ & _ & _ & _ & _ & _ & M & _). apply M.
-  - destruct (exec_send_spec _ _ _ _ _ _ _ E) as (_ & _ & _ & M & _). apply M.
-  - inversion E; subst. reflexivity.
+  - left. destruct (exec_remove_spec _ _ _ _ _ _ _ _ _ E) as (cp & a1 & a2 & _ & _ & _ & _ & _ & _ & _ & _ & _ & _ & M & _). apply M.
+  - left. destruct (exec_add_uni_spec _ _ _ _ _ _ _ _ _ E) as (n & mint & _ & _ & _ & _ & _ & _ & _ & _ & _ & M & _). apply M.
+  - left. destruct (exec_remove_uni_spec _ _ _ _ _ _ _ _ _ E) as (n & target & _ & _ & _ & _ & _ & _ & _ & _ & M & _). apply M.
+  - left. destruct (exec_send_spec _ _ _ _ _ _ _ E) as (_ & _ & _ & M & _). apply M.
+  - left. inversion E; subst. reflexivity.
+  - right. destruct (exec_update_params_spec _ _ _ _ _ E) as (_ & -> & Hv & _ & _ & _ & _ & Hp).
+    exists p. auto.
 Qed.
 
 Lemma run_registry_grows ms : forall s p, In p (pools s) -> In p (pools (run s ms)).
@@ -207,20 +214,20 @@ Proof.
   apply IH. apply step_registry_grows. exact Hin.
 Qed.
 
-Lemma run_par ms : forall s, par (run s ms) = par s.
-Proof.
-  induction ms as [|m ms IH]; intros s; simpl; [reflexivity|]. rewrite IH. apply step_par.
-Qed.
+(** a predicate on every state a history passes through, both ends included *)
+Fixpoint all_states (P : state -> Prop) (s : state) (ms : list msg) : Prop :=
+  P s /\ match ms with [] => True | m :: ms' => all_states P (step s m) ms' end.
 
-(** over a whole history: the supply of a denom that is neither the creation-fee denom nor the
-    LPT denom of a pool registered at the end is what it was at the start *)
+(** over a whole history (parameter changes included): a denom that is never the creation-fee denom
+    and is not the LPT denom of a pool registered at the end keeps its supply *)
 Lemma history_supply_frame_lemma ms : forall s d,
-  d <> p_cdenom (par s) ->
+  all_states (fun s' => d <> p_cdenom (par s')) s ms ->
   (forall cp n, In (cp, n) (pools (run s ms)) -> d <> lpt n) ->
   supply (run s ms) d = supply s d.
 Proof.
   induction ms as [|m ms IH]; intros s d Hc Hl; simpl; [reflexivity|].
-  simpl in Hl. rewrite IH; [|rewrite step_par; exact Hc|exact Hl].
+  simpl in Hl. simpl in Hc. destruct Hc as (Hc0 & Hc).
+  rewrite IH; [|exact Hc|exact Hl].
   destruct (Z.eq_dec (supply (step s m) d) (supply s d)) as [e|Hne]; [exact e|exfalso].
   destruct (supply_frame_lemma _ _ _ Hne) as [(cp & n & Hd & Hin)|[Hd _]]; [|congruence].
   apply (Hl cp n); [|exact Hd].
